@@ -298,6 +298,7 @@ def run(chk: Check):
     rule_z4(chk, ix)
     rule_u2(chk)
     rule_u3(chk, ix)
-    from .c08 import rule_l5
+    from .c08 import rule_l1, rule_l5
     rule_l5(chk, ix)
+    rule_l1(chk, ix)   # error positions are token positions
     chk.units["functions"] = len(ix.funcs)
